@@ -1417,7 +1417,9 @@ def scope_desc(rng):
     inner = {}
     if rng.random() < 0.4:
         inner = rng.choice([dict(repetition_ids=['z']), dict(parent_path=['s']), dict(use_repetition_ids=True, repetitions=1)])
-    return dict(kind=kind, v0=rng.random() < 0.5, v1=rng.random() < 0.5, k=k, ids=ids, opts=opts, nest=rng.random() < 0.5, inner=inner)
+    wrap = rng.choice([None, None, {}, dict(parent_path=['w']), dict(repetition_ids=['u'])])   # enclose everything in one more operation
+    return dict(kind=kind, v0=rng.random() < 0.5, v1=rng.random() < 0.5, k=k, ids=ids, opts=opts, nest=rng.random() < 0.5, inner=inner,
+                wrap=wrap)
 
 
 def scope_build(cirq, d):
@@ -1433,8 +1435,11 @@ def scope_build(cirq, d):
     else:
         body = [cirq.Moment(ctl), cirq.Moment(prep), cirq.Moment(cirq.measure(q1, key='a'))]
     sub = cirq.CircuitOperation(cirq.FrozenCircuit(body), repetitions=k, **fixo(d['opts']))
-    circuit = cirq.Circuit(([cirq.Moment(cirq.X(q0))] if v0 else []) +
-                           [cirq.Moment(cirq.measure(q0, key='a')), cirq.Moment(sub), cirq.Moment(cirq.measure(q2, key='out'))])
+    head = ([cirq.Moment(cirq.X(q0))] if v0 else []) + [cirq.Moment(cirq.measure(q0, key='a')), cirq.Moment(sub)]
+    if d.get('wrap') is not None:
+        sub = cirq.CircuitOperation(cirq.FrozenCircuit(head), **fixo(d['wrap']))
+        head = [cirq.Moment(sub)]
+    circuit = cirq.Circuit(head + [cirq.Moment(cirq.measure(q2, key='out'))])
     # expected value of `out`, from the meaning of the circuit
     b1 = b2 = 0
     last = int(v0)
@@ -1469,7 +1474,8 @@ def scope_stream(ctx, cirq, V, n):
             got[name] = r[1] if r[0] == 'ok' else r[1:]
         ctx.count('sim:scoping:' + kind, desc, True, sample=dict(case=desc, expected_out=want, got=got))
         for name, g in got.items():
-            if g != want and kind == 'T2' and not desc['ids'] and desc['k'] >= 2 and (desc['opts'].get('parent_path') or desc['nest']):
+            if g != want and kind == 'T2' and not desc['ids'] and desc['k'] >= 2 and (desc['opts'].get('parent_path') or desc['nest']
+                                                                                      or desc['wrap']):
                 ctx.violation(F18_SIG, F18_WHAT + f' (template {desc}: `out` is {g}, expected {want})', dict(kind='scope', desc=desc, expected=want))
             elif g != want:
                 ctx.violation(f'scoping:{kind}:{name}', f'scoping template {kind} {desc}: measurement `out` is {g} in the {name} circuit, '
